@@ -40,3 +40,16 @@ Section Codec.
           n3 <- blit n2 (i + newLen) tl ;;
           Ok (mkstr n3 newCap).
 End Codec.
+
+(* ddp_string_equal as it was BEFORE the fix "two empty Texts are equal whichever representation they have":
+   memcmp over str1->cap bytes of both blocks *)
+Definition string_equal_old (same : bool) (s1 s2 : ddpstring) : res bool :=
+  if same then Ok true
+  else
+    l1 <- ddp_strlen s1 ;;
+    l2 <- ddp_strlen s2 ;;
+    if negb (l1 =? l2) then Ok false
+    else
+      a <- sub (bytes s1) 0 (cap s1) ;;
+      b <- sub (bytes s2) 0 (cap s1) ;;
+      Ok (list_eqb a b).
